@@ -29,6 +29,7 @@ import (
 	"time"
 
 	"github.com/go-faster/city"
+	"github.com/kr/logfmt"
 	"github.com/metrico/qryn/reader/logql/logql_parser"
 	lt "github.com/metrico/qryn/reader/logql/logql_transpiler_v2"
 	ip "github.com/metrico/qryn/reader/logql/logql_transpiler_v2/internal_planner"
@@ -122,6 +123,10 @@ type ParseRow struct {
 	Tree   *JNode   `json:"tree,omitempty"`
 	Plain  bool     `json:"plain,omitempty"`
 	Params []JParam `json:"params,omitempty"`
+	// logfmt stages: the (key, value) pairs kr/logfmt hands to the stage's handler on the line (hex), nil + false when it refuses it
+	Logfmt  bool        `json:"logfmt,omitempty"`
+	Pairs   [][2]string `json:"pairs,omitempty"`
+	PairsOk bool        `json:"pairs_ok,omitempty"`
 }
 type TmplRow struct {
 	ID     int               `json:"id"`
@@ -939,6 +944,13 @@ func buildTables(c *Case, ins [][]Entry) {
 						row.Tree, row.Plain = jtree(hx.UnHex(e.Msg))
 					}
 				}
+				if st.Op == "logfmt" {
+					if ps, ok := jparams(names, vals); ok {
+						row.Logfmt = true
+						row.Params = ps
+						row.Pairs, row.PairsOk = logfmtPairs(hx.UnHex(e.Msg))
+					}
+				}
 				c.Tab.Parse = append(c.Tab.Parse, row)
 			}
 		case "line_format":
@@ -1011,7 +1023,7 @@ func runFP(c *Case) {
 
 // ---------------------------------------------------------------------------------- generator
 
-var keyPool = []string{"app", "level", "a", "ab", "job", "n", "x_y", "dur", "msg"}
+var keyPool = []string{"app", "level", "a", "ab", "job", "n", "x_y", "dur", "msg", "caf_", "gr__e"}
 var valPool = []string{"b", "bc", "c", "error", "info", "warn", "1", "2", "2.5", "10", "-3", "0", "x y", "A1"}
 
 func pick(r *rand.Rand, xs []string) string { return xs[r.Intn(len(xs))] }
@@ -1027,11 +1039,41 @@ func genLabels(r *rand.Rand) map[string]string {
 
 func jsonStr(s string) string { b, _ := json.Marshal(s); return string(b) }
 
+// keys with valid multi-byte characters (2, 3 and 4 bytes, a combining mark): the label is named with ONE "_" per
+// character (caf_, gr__e, ab_, _k, e_x); keyPool holds those names so that filters, by/without, drop, unwrap and
+// label_format of the generated queries meet the extracted labels
+var uKeys = []string{"café", "größe", "ab€", "\U0001D11Ek", "e\u0301x"}
+
+// logfmtPairs: the decoder oracle of the logfmt stage (github.com/kr/logfmt, as the stage calls it)
+type pairCollector struct{ pairs [][2]string }
+
+func (p *pairCollector) HandleLogfmt(key, val []byte) error {
+	p.pairs = append(p.pairs, [2]string{hx.Hex(string(key)), hx.Hex(string(val))})
+	return nil
+}
+
+func logfmtPairs(line string) ([][2]string, bool) {
+	pc := &pairCollector{pairs: [][2]string{}}
+	if err := logfmt.Unmarshal([]byte(line), pc); err != nil {
+		return nil, false
+	}
+	return pc.pairs, true
+}
+
 func genJSONLine(r *rand.Rand) string {
 	var parts []string
 	n := 1 + r.Intn(4)
 	for i := 0; i < n; i++ {
 		k := pick(r, keyPool)
+		if r.Intn(6) == 0 {
+			// written literally or as \uXXXX escapes: the key is the same, the line is all ASCII in the second form
+			uk := pick(r, uKeys)
+			parts = append(parts, jsonStrEsc(r, uk)+":"+jsonStr(pick(r, valPool)))
+			if r.Intn(3) == 0 {
+				parts = append(parts, jsonStr(k)+":{"+jsonStrEsc(r, pick(r, uKeys))+":"+strconv.Itoa(r.Intn(5))+"}")
+			}
+			continue
+		}
 		switch r.Intn(8) {
 		case 0:
 			parts = append(parts, jsonStr(k)+":"+strconv.Itoa(r.Intn(20)-3))
@@ -1055,6 +1097,9 @@ func genLogfmtLine(r *rand.Rand) string {
 	n := 1 + r.Intn(4)
 	for i := 0; i < n; i++ {
 		k := pick(r, keyPool)
+		if r.Intn(6) == 0 {
+			k = pick(r, uKeys)
+		}
 		v := pick(r, valPool)
 		switch r.Intn(6) {
 		case 0:
@@ -1165,6 +1210,11 @@ func genStage(r *rand.Rand, gp *genPlan) string {
 	case 10:
 		return " | json " + pick(r, keyPool) + "=" + strconv.Quote(pick(r, []string{"level", "n", "a.b", "msg", "a[1]", "app.k-2.z", "job[\"k\"]"}))
 	case 11:
+		if r.Intn(3) == 0 {
+			// logfmt with fields: label = "key" (the first part of the path names the key)
+			return " | logfmt " + pick(r, keyPool) + "=" + strconv.Quote(pick(r, []string{"level", "n", "msg", "[\"ab-z\"]", "dur", "[\"café\"]"})) +
+				pick(r, []string{"", "", ", lv=\"level\"", ", m2=\"msg\""})
+		}
 		return " | logfmt"
 	case 12:
 		return " | json"
